@@ -62,7 +62,8 @@ def generate(ctx):
             desc["pad2"], desc["dil2"] = p2, d2
         yield desc
     for _ in range(500 if th else 40):
-        ops = [rng.choice(["set_weight", "set_delay", "update", "clamp", "normalize", "forward", "set_weight_param"])
+        ops = [rng.choice(["set_weight", "set_delay", "update", "clamp", "normalize", "forward", "set_weight_param",
+                           "init_weight_inplace", "bump_weight_inplace", "init_delay_inplace"])
                for _ in range(rng.randint(4, 14))]
         yield {"part": "lateral_inv", "n": rng.choice([2, 3, 5]), "delay": rng.choice([True, True, False, "zero"]), "ops": ops, "via_init": rng.random() < 0.4,
                "seed": rng.randrange(1 << 30)}
@@ -309,6 +310,10 @@ def _lateral_inv(ctx, desc):
         ini = {}
         if desc.get("via_init"):
             ini = dict(weight_init=lambda x: torch.rand(x.shape, generator=g) + 0.5, delay_init=lambda x: torch.rand(x.shape, generator=g) + 0.2)
+            if desc["seed"] % 2:
+                # the in-place initialisers of torch.nn.init hand back the very tensor they were given
+                ini = dict(weight_init=lambda x: torch.nn.init.constant_(x, 0.5), delay_init=lambda x: x.fill_(2.0))
+                ctx.count("lateral_inplace_initialisers")
         conn = LinearLateral(n, 1.0, synapse=_syn(), delay=({True: 3.0, False: None, "zero": 0.0}[desc["delay"]]), batch_size=1, **ini)
         conn.updater = conn.defaultupdater()
     except Exception as e:  # noqa: BLE001
@@ -334,6 +339,16 @@ def _lateral_inv(ctx, desc):
                 conn.weight = torch.randn(n, n, generator=g) + 2.0
             elif op == "set_weight_param":
                 conn.weight = torch.nn.Parameter(torch.rand(n, n, generator=g) + 0.5, requires_grad=False)
+            elif op == "init_weight_inplace":
+                conn.weight = torch.nn.init.uniform_(conn.weight, 0.1, 1.0)        # same parameter object, edited in place
+                ctx.count("lateral_same_object_assignments")
+            elif op == "bump_weight_inplace":
+                conn.weight = conn.weight.add_(1.0)
+                ctx.count("lateral_same_object_assignments")
+            elif op == "init_delay_inplace":
+                if desc["delay"]:
+                    conn.delay = conn.delay.fill_(1.5)
+                    ctx.count("lateral_same_object_assignments")
             elif op == "set_delay":
                 if desc["delay"]:
                     conn.delay = torch.rand(n, n, generator=g) * 3.0 + 0.1
